@@ -25,6 +25,40 @@ def _blocked_in_read0(pid):
     return state == "S" and len(sc) >= 2 and sc[0] == "0" and sc[1] == "0x0"
 
 
+def _blocked_in_read_any(pid):
+    """(asleep?, fd) - the main thread sleeps in read(2) on some descriptor"""
+    try:
+        st = open(f"/proc/{pid}/task/{pid}/stat").read()
+        state = st[st.rindex(")") + 2]
+        sc = open(f"/proc/{pid}/task/{pid}/syscall").read().split()
+    except (FileNotFoundError, ProcessLookupError, ValueError):
+        return False, -1
+    if state == "S" and len(sc) >= 2 and sc[0] == "0":
+        return True, int(sc[1], 16)
+    return False, -1
+
+
+def _pending_of(pid, fd):
+    """bytes waiting in descriptor fd of process pid (a pipe), via /proc/<pid>/fd/<fd>"""
+    try:
+        f = os.open(f"/proc/{pid}/fd/{fd}", os.O_RDONLY | os.O_NONBLOCK)
+    except OSError:
+        return -1
+    try:
+        return _pending(f)
+    except OSError:
+        return -1
+    finally:
+        os.close(f)
+
+
+def _children(pid):
+    try:
+        return [int(x) for x in open(f"/proc/{pid}/task/{pid}/children").read().split()]
+    except (FileNotFoundError, ProcessLookupError, ValueError):
+        return []
+
+
 def _drain(fd):
     out = b""
     while True:
@@ -37,9 +71,17 @@ def _drain(fd):
         out += b
 
 
-def stream(args, lines, env=None, timeout=20.0, prefix_args=("--paging", "never")):
+def stream(args, lines, env=None, timeout=20.0, prefix_args=("--paging", "never"), via="stdin"):
     """lines: list of bytes (without newline). Returns (seen, out, code, stderr, ok) where seen[k] is
-    the number of stdout bytes observable once k lines have been consumed (k = 0..n)."""
+    the number of stdout bytes observable once k lines have been consumed (k = 0..n).
+    via = "stdin": delta reads the lines from its stdin and writes to stdout;
+    via = "pager": as before, but delta writes to a pager (`cat`) that it starts itself: the snapshot is taken when
+                   delta AND the pager sleep in read(2) on empty pipes;
+    via = "wrap":  delta starts the producer itself (`delta <options> git show`, a stub that passes a FIFO through):
+                   the snapshot is taken when the stub sleeps on the empty FIFO and delta sleeps on the empty pipe
+                   from the stub."""
+    if via != "stdin":
+        return _stream_indirect(args, lines, env, timeout, via)
     argv = [core.DELTA] + list(prefix_args) + list(args)
     p = subprocess.Popen(argv, stdin=subprocess.PIPE, stdout=subprocess.PIPE, stderr=subprocess.PIPE,
                          env=core.base_env(env), cwd=os.path.join(core.scratch(), "cwd"))
@@ -91,4 +133,89 @@ def stream(args, lines, env=None, timeout=20.0, prefix_args=("--paging", "never"
         rest, err = p.communicate()
         ok = False
     out += rest
+    return seen, out, p.returncode, err, ok
+
+
+def _stream_indirect(args, lines, env, timeout, via):
+    env = dict(env or {})
+    scratch = core.scratch()
+    fifo = None
+    if via == "pager":
+        argv = [core.DELTA, "--paging", "always", "--pager", "cat"] + list(args)
+        stdin = subprocess.PIPE
+    else:
+        fifo = os.path.join(scratch, f"fifo-{os.getpid()}-{time.time_ns()}")
+        os.mkfifo(fifo)
+        env.update({"PATH": os.path.join(core.FIXBIN, "bin") + ":/usr/bin:/bin", "STUB_OUT": fifo, "STUB_STREAM": "1"})
+        argv = [core.DELTA, "--paging", "never"] + list(args) + ["git", "show"]
+        stdin = subprocess.DEVNULL
+    p = subprocess.Popen(argv, stdin=stdin, stdout=subprocess.PIPE, stderr=subprocess.PIPE,
+                         env=core.base_env(env), cwd=os.path.join(scratch, "cwd"))
+    ofd = p.stdout.fileno()
+    fl = fcntl.fcntl(ofd, fcntl.F_GETFL)
+    fcntl.fcntl(ofd, fcntl.F_SETFL, fl | os.O_NONBLOCK)
+    ifd = p.stdin.fileno() if via == "pager" else os.open(fifo, os.O_WRONLY)
+    out = b""
+    seen = []
+    deadline = time.time() + timeout
+
+    def settled():
+        kids = _children(p.pid)
+        if via == "pager":
+            # delta asleep on its empty stdin; the pager (once started) asleep on its empty stdin
+            if not (_pending(ifd) == 0 and _blocked_in_read0(p.pid)):
+                return False
+            return all(_blocked_in_read0(k) and _pending_of(k, 0) == 0 for k in kids)
+        # wrap: the stub asleep on the empty FIFO, delta asleep on the empty pipe from the stub
+        if len(kids) != 1 or _pending(ifd) != 0:
+            return False
+        a, fd_stub = _blocked_in_read_any(kids[0])
+        b, fd_delta = _blocked_in_read_any(p.pid)
+        return a and b and fd_delta > 2 and _pending_of(p.pid, fd_delta) == 0
+
+    def quiesce():
+        nonlocal out
+        while time.time() < deadline:
+            if p.poll() is not None:
+                return False
+            if settled():
+                out += _drain(ofd)
+                if settled():
+                    out += _drain(ofd)
+                    return True
+            else:
+                out += _drain(ofd)
+                time.sleep(0.0003)
+        return False
+
+    ok = True
+    try:
+        ok = quiesce()
+        seen.append(len(out))
+        for ln in lines:
+            if not ok:
+                break
+            os.write(ifd, ln + b"\n")
+            ok = quiesce()
+            seen.append(len(out))
+    except BrokenPipeError:
+        ok = False
+    if via == "pager":
+        try:
+            p.stdin.close()
+        except BrokenPipeError:
+            pass
+        p.stdin = None
+    else:
+        os.close(ifd)
+    fcntl.fcntl(ofd, fcntl.F_SETFL, fl)
+    try:
+        rest, err = p.communicate(timeout=max(1.0, deadline - time.time()))
+    except subprocess.TimeoutExpired:
+        p.kill()
+        rest, err = p.communicate()
+        ok = False
+    out += rest
+    if fifo:
+        os.unlink(fifo)
     return seen, out, p.returncode, err, ok
